@@ -36,6 +36,8 @@ def classify_session(row, sem):
             if leaked and g["kind"] == "iter_mutation":
                 return {"what": "outcome", "engine": "session", "sem": e["err"]["kind"] or "ok", "real": "iter_mutation", "after_lock_leak": True}
             return {"what": "outcome", "engine": "session", "sem": e["err"]["kind"] or "ok", "real": g["kind"] or "ok", "after_lock_leak": leaked}
+        if not g.get("host_ok", True):
+            return {"what": "host_api_panic", "engine": "session"}
         if g["stack"] != 0:
             return {"what": "stack_not_empty", "engine": "session", "chunk_failed": bool(g["kind"])}
         if g["locks"] != 0:
@@ -68,7 +70,7 @@ def run(tier):
             row = by[b]
             verdict.disagree(classify_session(row, ex.get(b)),
                              {"session": {"id": b, "chunks": [x.get("src") for x in row["res"]],
-                                          "observed": [{k: x[k] for k in ("kind", "line", "msg", "stack", "locks", "out")} for x in row["res"]]},
+                                          "observed": [{k: x.get(k) for k in ("kind", "line", "msg", "stack", "locks", "out", "host_ok", "host_panic")} for x in row["res"]]},
                               "sem": ex.get(b)})
     # (ii) builtin x argument catalogue
     pairs, triples = (3, 800) if tier == "quick" else (100, 20000)
